@@ -202,6 +202,10 @@ func runOne(r *hxlib.Run, s sc, mutants bool) {
 }
 
 func main() {
+	if hxconn.IsL5Child() {
+		hxconn.L5ChildMain()
+		return
+	}
 	if hxconn.IsChild() {
 		hxconn.ChildMain()
 		return
@@ -216,7 +220,9 @@ func main() {
 	if r.Replay != "" {
 		var c replayCase
 		r.LoadReplay(&c)
-		if c.Shared != nil {
+		if c.Legs5 != nil {
+			replayLegs5(r, *c.Legs5)
+		} else if c.Shared != nil {
 			runShared(r, *c.Shared)
 		} else if c.Listener != nil {
 			runListener(r, *c.Listener)
@@ -281,6 +287,7 @@ func main() {
 		runOne(r, s, true)
 	}
 	diversityLegs(r)
+	legs5(r)
 	if os.Getenv("HX_ONLY") == "diversity" { // (development aid: only the third-wave legs)
 		return
 	}
@@ -341,6 +348,7 @@ type replayCase struct {
 	hxconn.Scenario
 	Listener *ListenerCase      `json:"listener,omitempty"`
 	Shared   *hxconn.SharedCase `json:"shared,omitempty"`
+	Legs5    *hxconn.L5Case     `json:"legs5,omitempty"`
 }
 
 // runShared: channel capacities the single-connection scenarios do not vary (oracle only, see hxconn/shared.go).
